@@ -233,6 +233,8 @@ func ReadGenBank(r io.Reader) (Genbank, error) {
 	gb := Genbank{}
 
 	s := bufio.NewScanner(r)
+	// as the fasta readers: lines of up to 1 MiB (the default token of 64 KiB made the scanner stop, silently)
+	s.Buffer(make([]byte, 0), 1024*1024)
 
 	first := true
 	var header string
@@ -271,6 +273,11 @@ func ReadGenBank(r io.Reader) (Genbank, error) {
 		}
 
 		lines = append(lines, line)
+	}
+
+	// a line that is too long, or a read error: the annotation is incomplete
+	if err := s.Err(); err != nil {
+		return gb, err
 	}
 
 	switch {
